@@ -161,9 +161,17 @@ def breaking_variants(root: str, prop: str) -> t.List[Variant]:
     def narrow(h: ast.AST) -> None:
         h.type = ast.Name(id='ValueError', ctx=ast.Load())  # type: ignore[attr-defined]
     if prop in ('C04',):
+        # narrow a handler inside a conversion pass (fast or diagnostic)
+        def pick_pass(n: ast.AST) -> bool:
+            return isinstance(n, ast.FunctionDef) and re.match(r'^(_?try_convert|_?collect_errors)', n.name) is not None and any(
+                isinstance(h, ast.ExceptHandler) and isinstance(h.type, ast.Name) and h.type.id == 'Exception' for h in ast.walk(n))
+
+        def narrow_all(fn: ast.AST) -> None:
+            for h in ast.walk(fn):
+                if isinstance(h, ast.ExceptHandler) and isinstance(h.type, ast.Name) and h.type.id == 'Exception':
+                    h.type = ast.Name(id='ValueError', ctx=ast.Load())
         for rel in (conv, cls_):
-            V += _mutate(root, rel, lambda n: isinstance(n, ast.ExceptHandler) and isinstance(n.type, ast.Name) and n.type.id == 'Exception',
-                         narrow, 'narrow-handler', 'break')
+            V += _mutate(root, rel, pick_pass, narrow_all, 'narrow-handler', 'break')
     if prop in ('C03', 'C07', 'C08'):
         # one-sided: narrow handlers only inside collect_errors* functions
         def pick_collect(n: ast.AST) -> bool:
@@ -434,6 +442,12 @@ def run_selftest(prop: str, repo: str, out: t.Callable[..., None]) -> t.Dict[str
             skipped.append(name)
             continue
         variants.append(Variant(name, 'break' if prop in expected[name] else 'benign-for-this-property', ov))
+    for path in sorted(glob.glob(os.path.join(HERE, 'benign', '*.diff'))):
+        ov = apply_patch(repo, open(path, encoding='utf-8').read())
+        if ov is None:
+            skipped.append('benign ' + os.path.basename(path)[:-5])
+            continue
+        variants.append(Variant('refactor ' + os.path.basename(path)[:-5], 'benign', ov))
     try:
         variants += breaking_variants(repo, prop)
     except Exception as e:  # a self-test generator must never break the check itself
